@@ -23,6 +23,8 @@ import (
 //	drop-left     a && b / a || b in an if condition → b
 //	drop-right    a && b / a || b in an if condition → a
 //	del-return    delete an `if … { return … }` guard whole (no else)
+//	cmp-boundary  < ↔ <=, > ↔ >=
+//	swap-stmt     exchange two adjacent statements that both have an effect (call, =, ++, send, defer, go)
 type mutSite struct {
 	ID    int    `json:"id"`
 	Op    string `json:"op"`
@@ -125,6 +127,12 @@ func mutSites(p *Prog, touched map[*Func]bool, repo string) []mutSite {
 		ast.Inspect(f.Body, func(n ast.Node) bool {
 			switch x := n.(type) {
 			case *ast.BlockStmt:
+				for i := 0; i+1 < len(x.List); i++ {
+					a, b := x.List[i], x.List[i+1]
+					if effectful(a) && effectful(b) && !isLogging(f, a) && !isLogging(f, b) {
+						add(f, "swap-stmt", a.Pos(), b.End(), text(b)+"\n"+text(a))
+					}
+				}
 				for _, s := range x.List {
 					if isLogging(f, s) {
 						continue
@@ -172,6 +180,22 @@ func mutSites(p *Prog, touched map[*Func]bool, repo string) []mutSite {
 						add(f, "del-stmt", s.Pos(), s.End(), "")
 					}
 				}
+			case *ast.BinaryExpr:
+				// boundary slips on ordered comparisons
+				var repl string
+				switch x.Op {
+				case token.LSS:
+					repl = "<="
+				case token.LEQ:
+					repl = "<"
+				case token.GTR:
+					repl = ">="
+				case token.GEQ:
+					repl = ">"
+				}
+				if repl != "" && x.OpPos.IsValid() && x.X.End() <= x.OpPos {
+					add(f, "cmp-boundary", x.OpPos, x.OpPos+token.Pos(len(x.Op.String())), repl)
+				}
 			case *ast.IfStmt:
 				add(f, "neg-cond", x.Cond.Pos(), x.Cond.End(), "!("+text(x.Cond)+")")
 				var walk func(e ast.Expr)
@@ -193,4 +217,18 @@ func mutSites(p *Prog, touched map[*Func]bool, repo string) []mutSite {
 		out[i].ID = i
 	}
 	return out
+}
+
+// effectful: a statement that does something and defines nothing (so that exchanging two of them still compiles).
+func effectful(s ast.Stmt) bool {
+	switch st := s.(type) {
+	case *ast.ExprStmt:
+		_, isCall := st.X.(*ast.CallExpr)
+		return isCall
+	case *ast.AssignStmt:
+		return st.Tok != token.DEFINE
+	case *ast.IncDecStmt, *ast.SendStmt, *ast.DeferStmt, *ast.GoStmt:
+		return true
+	}
+	return false
 }
